@@ -18,9 +18,19 @@ import (
 // out is the line writer every family prints its trace to.
 var out *bufio.Writer
 
+// hangSeen is set when a guarded call ran into the watchdog.  The goroutine of that call is
+// leaked and may still be mutating the instance, so nothing observed afterwards is reliable:
+// the run stops right after the line that reports the hang has been written.
+var hangSeen bool
+
 func emit(format string, a ...interface{}) {
 	fmt.Fprintf(out, format, a...)
 	out.WriteByte('\n')
+	if hangSeen {
+		out.WriteString("# run stopped after a watchdog timeout\n")
+		out.Flush()
+		os.Exit(0)
+	}
 }
 
 // ---------- formatting (must match Main.lean's parser) ----------
@@ -135,6 +145,7 @@ func guard(timeout time.Duration, f func()) string {
 	case r := <-done:
 		return r
 	case <-time.After(timeout):
+		hangSeen = true
 		return "hang"
 	}
 }
